@@ -327,8 +327,40 @@ def handoff(check, prog):
     vp = rp.ret_with_raises
     accepted, disagree = [], []
     classes = sorted(prog.subclasses(BASE)) + [None]
+    def uniform_atom(t):
+        """'this sphere has one index / one radius' tests: np.ndim(s.n) == 0,
+        np.isscalar(s.r), ..."""
+        if t[0] == 'cmp' and t[1] == '==' and t[3] == num(0) and t[2][0] == 'call' and \
+                t[2][1] == 'numpy.ndim' and t[2][2] and t[2][2][0][0] == 'attr' and \
+                t[2][2][0][1] == subj_c and t[2][2][0][2] in ('n', 'r', 't'):
+            return True
+        if t[0] == 'call' and t[1] == 'numpy.isscalar' and t[2] and \
+                t[2][0][0] == 'attr' and t[2][0][1] == subj_c and \
+                t[2][0][2] in ('n', 'r', 't'):
+            return True
+        return False
+
+    def value(t, C, uniform):
+        if uniform_atom(t):
+            return uniform
+        return isinstance_value(prog, t, subj_c, C)
+    SPHERE = prog.find_class('Sphere')
     for C in classes:
-        acc = eval3(r.ret, lambda t, C=C: isinstance_value(prog, t, subj_c, C))
+        acc = eval3(r.ret, lambda t, C=C: value(t, C, True))
+        if C and prog.is_subclass(C, SPHERE):
+            # a sphere with several layers: only the first index and radius would
+            # reach the compiled code (f2py takes element 0 of an array for a
+            # scalar argument without complaint)
+            acc_l = eval3(r.ret, lambda t, C=C: value(t, C, False))
+            check.require(acc_l is False, 'E6-layered-spheres-refused',
+                          'Tmatrix.can_handle [%s with layers]' % C.rpartition('.')[2],
+                          'a sphere whose index or radius is not a single number is '
+                          'refused', prog.loc(qc, fdc),
+                          fail_detail='can_handle accepts every Sphere, layered or '
+                          'not: calc_holo(det, LayeredSphere(n=[1.59, 1.45+0.02j], '
+                          't=[0.3, 0.2]), theory=Tmatrix()) is bit-identical to the '
+                          'hologram of the bare core Sphere(n=1.59, r=0.3) and 0.26 '
+                          'off the layered Lorenz-Mie result, without a warning')
         leaf = select(vp, lambda t, C=C: isinstance_value(prog, t, subj_p, C))
         refused = None if leaf is None else (leaf[0] == 'raise')
         name = C.rpartition('.')[2] if C else 'a non-scatterer'
